@@ -924,6 +924,67 @@ func (c *Ctx) ruleSecretParserTotal(rule string) {
 			why = "return at " + c.P.InstrPos(r) + " is reachable before the secret was handed to the JSON decoder: " + c.P.PathString(path)
 		}
 	}
-	_ = o
 	R.Check(rule, fk, "no classification before the JSON decoder", c.P.Pos(f.Pos()), ok, "every return of the parser lies behind json.Unmarshal of the complete secret", why)
+
+	// what makes the parser answer "not a NUT-10 secret" (= plain secret, no lock is checked): only the failure
+	// of a plain json.Unmarshal or a length test of the decoded array. A stricter decoder (Decoder options
+	// such as DisallowUnknownFields) or a validation of the lock's content (hex, length of the data field ...)
+	// would turn a locked secret that other implementations honour into an anyone-can-spend one.
+	cause := NewCut()
+	nCause := 0
+	for _, e := range o.AllEdges() {
+		ft := o.EdgeFact(e)
+		if ft == nil {
+			continue
+		}
+		switch {
+		case ft.Kind == "errnil" && !ft.Pos && ft.A != nil && ft.A.K == "call" && ft.A.Call != nil && c.P.Describe(ft.A.Call).Name == "encoding/json.Unmarshal":
+			cause.Edges[e] = true
+			nCause++
+		case ft.Kind == "cmp" && ft.A != nil && ft.B != nil && ft.A.K == "len" && ft.B.K == "const":
+			// len(raw array) compared with a constant: the shape test (either edge may be the failing one)
+			if t := ft.A.Args[0]; t != nil && strings.Contains(typeOfEx(t), "json.RawMessage") {
+				cause.Edges[e] = true
+				nCause++
+			}
+		}
+	}
+	okC, whyC := nCause > 0, "no JSON failure edge found"
+	for _, r := range Returns(f) {
+		if !o.IsFailureReturn(r) {
+			continue
+		}
+		if reach, path := ReachFromEntry(f, r, cause); reach {
+			okC = false
+			whyC = "failure return at " + c.P.InstrPos(r) + " is reachable without a failing json.Unmarshal or a length test of the decoded array: " + c.P.PathString(path)
+		}
+	}
+	// the decoder is the plain one: no json.Decoder in the parser
+	for _, g := range c.OpFuncs(f) {
+		for _, ci := range Calls(g) {
+			if n := c.P.Describe(ci).Name; strings.HasPrefix(n, "encoding/json.(*Decoder).") || n == "encoding/json.NewDecoder" {
+				okC = false
+				whyC = "the parser uses a json.Decoder (" + n + " at " + c.P.InstrPos(ci) + "): decoder options can make it stricter than json.Unmarshal"
+			}
+			if g != f && c.P.IsNewFunc(g) {
+				// failure causes inside helpers that are new on this tree are not followed
+				for _, r := range Returns(g) {
+					if c.P.OriginsOf(g).IsFailureReturn(r) && g.Signature.Results().Len() > 0 && IsErrorType(g.Signature.Results().At(g.Signature.Results().Len()-1).Type()) {
+						okC = false
+						whyC = "a helper new on this tree (" + g.Name() + ") can make the parser fail; its causes are not decided"
+					}
+				}
+			}
+		}
+	}
+	R.Check(rule, fk, "only JSON shape makes the parser refuse a secret", c.P.Pos(f.Pos()), okC,
+		"a secret is classified as 'not NUT-10' (and then spendable without any lock check) only when plain json.Unmarshal fails or the decoded array is too short", whyC)
+}
+
+// typeOfEx names the static type of the value an expression was computed for ("" when unknown).
+func typeOfEx(e *Ex) string {
+	if e == nil || e.V == nil {
+		return ""
+	}
+	return e.V.Type().String()
 }
